@@ -350,8 +350,27 @@ def clause5_success_effect(ctx, P, cg):
            "remove_element is not the unconditional sequence announce, unlink, un-index, free (found %s)" % names)
 
 
+def clause6_wrappers(ctx, P):
+    """the three accessors of the path index agree on the key domain: each consults the table on every path with the key it
+    was given (a lookup that answers 'absent' without looking lets a second element take a path that put() accepted)"""
+    for wname, cname in (("element_table_get", "hashtable_get_element_table"), ("element_table_put", "hashtable_put_element_table"),
+                         ("element_table_remove", "hashtable_remove_element_table")):
+        w = P.fn("table.c:" + wname)
+        bad = None
+        n = 0
+        for v in Q.path_views(ctx, P, w):
+            n += 1
+            cs = [i for _, i in v.calls(cname)]
+            if not cs or P.term(w, cs[0].a[1]) != ("param", 0, w.params[0]["name"]):
+                bad = v
+        ctx.ob("C04.1 R-SIB", w, "consults-the-table-on-every-path", bad is None and n > 0,
+               "%s has a path that does not pass its key to %s: the accessors of the path index disagree about which paths exist"
+               % (wname, cname), witness=bad.witness() if bad else None)
+
+
 def run(ctx):
     for cfg in ctx.configs():
+        clause6_wrappers(ctx, cfg.P)
         clause1_unique(ctx, cfg.P)
         clause2_owner(ctx, cfg.P)
         clause3_typing(ctx, cfg.P)
